@@ -293,7 +293,7 @@ static void* gp_map_get_elem(
 
     if (slots[i].slot.index == GP_EMPTY)
         return NULL;
-    else if (memcmp(&slots[i].key, &key, sizeof key) == 0)
+    else if (slots[i].element != NULL && memcmp(&slots[i].key, &key, sizeof key) == 0)
         return (void*)slots[i].element;
     else if (slots[i].slot.index == GP_IN_USE) // some other key
         return NULL;
@@ -330,8 +330,9 @@ static bool gp_map_remove_elem(
     else if (slots[i].slot.index == GP_EMPTY) {
         return false;
     }
-    else if (memcmp(&slots[i].key, &key, sizeof key) == 0) {
-        slots[i].key = gp_bytes_hash128(&key, sizeof key);
+    else if (slots[i].element != NULL && memcmp(&slots[i].key, &key, sizeof key) == 0) {
+        // Slot has children so it can not be emptied. NULL element marks it
+        // as removed, the key may still live deeper if it was put again.
         destructor((void*)slots[i].element);
         slots[i].element = NULL;
         return true;
